@@ -74,6 +74,7 @@ static int dkind[NSLOT]; /* 1 = keys array (elements are key pointers), 2 = valu
 static CC_HashTableIter it; static int it_valid, it_can_remove;
 static uint64_t universe[4096]; static size_t n_univ;
 static unsigned long long ord_log[4096]; static size_t ord_n; static int ord_on;
+static int load_bound_broken; /* C20: size > threshold right after a successful insertion */
 static void shim_reset(void) { ht = NULL; for (int i = 0; i < NSLOT; i++) darr[i] = NULL; it_valid = it_can_remove = 0; n_univ = 0; }
 static void univ_add(uint64_t k) {
     for (size_t i = 0; i < n_univ; i++) if (universe[i] == k) return;
@@ -138,6 +139,7 @@ static void phys(void) {
         o_end();
         if (it_valid) { char b1[32], b2[32]; o(" it=%zu/%s/%s/%d", it.bucket_index, ptr_name(it.prev_entry, b1), ptr_name(it.next_entry, b2), it_can_remove); }
         /* L2 walkers */
+        if (load_bound_broken) o(" WALK=load-bound-after-insert");
         if (total != ht->size) o(" WALK=chain-lengths-vs-size");
         if (ht->capacity == 0 || (ht->capacity & (ht->capacity - 1))) o(" WALK=capacity-not-pow2");
         if (block_size(ht->buckets) < ht->capacity * sizeof(TableEntry *)) o(" WALK=bucket-block-too-small");
@@ -159,7 +161,7 @@ static void phys(void) {
 static void destroy_arrays(void) { for (int s = 1; s < NSLOT; s++) if (darr[s]) { cc_array_destroy(darr[s]); darr[s] = NULL; } }
 
 static void do_op(Cmd *c) {
-    ord_on = 0; ord_n = 0;
+    ord_on = 0; ord_n = 0; load_bound_broken = 0;
     int slot = (int)kv_u64(c, "to", kv_u64(c, "o", 0));
     if (is_op(c, "new")) {
         CC_HashTableConf conf; conf_from_cmd(c, &conf);
@@ -181,6 +183,7 @@ static void do_op(Cmd *c) {
     } else if (is_op(c, "add")) {
         uint64_t k = pos_u64(c, 0); univ_add(k); it_valid = 0;
         enum cc_stat st = cc_hashtable_add(ht, mkkey(k), PTR(pos_u64(c, 1))); o_stat(st); o(" ");
+        if (st == CC_OK && ht->size > ht->threshold) load_bound_broken = 1;
     } else if (is_op(c, "get")) {
         void *out = PTR(777777); enum cc_stat st = cc_hashtable_get(ht, mkkey(pos_u64(c, 0)), &out);
         o_stat(st); if (st == CC_OK) o(" out=%llu", VAL(out)); else if (out != PTR(777777)) o(" WALK=out-written-on-error"); o(" ");
